@@ -15,12 +15,18 @@ LEAVES = {
     "CLKL": [("bin", "GE", ("id", "x"), ("int", 2)), ("bin", "GT", ("id", "y"), ("int", 1)), ("bin", "LT", ("int", 1), ("id", "x"))],
     "CLKD": [("bin", "LE", ("bin", "MINUS", ("id", "x"), ("id", "y")), ("int", 3)), ("bin", "GT", ("bin", "MINUS", ("id", "y"), ("id", "x")), ("int", 0))],
     "CLKE": [("bin", "EQ", ("id", "x"), ("int", 4)), ("bin", "EQ", ("int", 2), ("id", "y"))],
+    # bounds that are floating point values: still atomic clock comparisons
+    "CLKF": [("bin", "LT", ("id", "x"), ("dbl", "1.5")), ("bin", "GE", ("bin", "MINUS", ("id", "x"), ("id", "y")), ("dbl", "1.5")),
+             ("bin", "GT", ("dbl", "2.5"), ("id", "y")), ("bin", "LE", ("bin", "MINUS", ("id", "y"), ("id", "x")), ("dbl", "0.5"))],
+    # disequalities over clocks: atomic, but not convex
+    "CLKN": [("bin", "NEQ", ("id", "x"), ("int", 3)), ("bin", "NEQ", ("id", "x"), ("id", "y")),
+             ("bin", "NEQ", ("bin", "MINUS", ("id", "x"), ("id", "y")), ("int", 2)), ("bin", "NEQ", ("id", "x"), ("dbl", "1.5"))],
 }
 BINARY = ["AND", "OR", "imply", "XOR", "EQ", "NEQ"]
 
 
 def cls_leaf(k):
-    return "INT" if k == "INT" else "CLK"
+    return "INT" if k == "INT" else ("NONCONVEX" if k == "CLKN" else "CLK")
 
 
 def classify(f):
@@ -125,8 +131,18 @@ def run(rep, tier, seed):
         forms.append(("not", f))
         forms.append(("forall", f))
         forms.append(("exists", f))
+    # depth 3, systematic: every pair of connectives in both nestings over every triple of leaf kinds (rendered with
+    # minimal parentheses, so the relative precedence and associativity of the connectives matter); quick: a third
+    d3 = []
+    for op1, op2 in itertools.product(BINARY, BINARY):
+        for a, b, c in itertools.product(kinds, kinds, kinds):
+            d3.append((op1, (op2, leaf(a), leaf(b)), leaf(c)))
+            d3.append((op1, leaf(a), (op2, leaf(b), leaf(c))))
+    if quick:
+        d3 = [f for i, f in enumerate(d3) if i % 3 == seed % 3]
+    forms += d3
     # depth 3 and 4: sampled
-    pool = list(forms)
+    pool = list(forms[:len(forms) - len(d3)])
     for _ in range(1500 if quick else 40000):
         r = rng.random()
         if r < 0.7:
